@@ -234,6 +234,25 @@ class _Under:
         return getattr(self._rep, name)
 
 
+class _UnderOnly(_Under):
+    """... and only those of its obligations whose construct key is wanted here (the others are that property's own business)"""
+
+    def __init__(self, rep: Report, rid: str, wanted: Any) -> None:
+        super().__init__(rep, rid)
+        self._wanted = wanted
+
+    def check(self, cond: bool, rule: str, construct: str, message: str, where: str = "", lhs: Any = None, rhs: Any = None, **facts: Any) -> bool:
+        return super().check(cond, rule, construct, message, where, lhs, rhs, **facts) if self._wanted(construct) else bool(cond)
+
+    def ok(self, rule: str, construct: str, lhs: Any = None, rhs: Any = None, nontrivial: bool = True) -> None:
+        if self._wanted(construct):
+            super().ok(rule, construct, lhs, rhs, nontrivial)
+
+    def fail(self, rule: str, construct: str, message: str, where: str = "", lhs: Any = None, rhs: Any = None, **facts: Any) -> None:
+        if self._wanted(construct):
+            super().fail(rule, construct, message, where, lhs, rhs, **facts)
+
+
 def _nothing_stale_remains(rep: Report, ctx: Any) -> None:
     """The pieces a run omits must not be in the output tree afterwards either - also when the tree held an earlier generation (the
     documented update workflow: regenerate in place after the document changed).  A module of an endpoint that is now omitted, left
@@ -254,9 +273,8 @@ FIXPOINT_RULE_TEXT = (
     "about another round (what the `while` test reads, what the tests before a break / return of the round loop read - followed into "
     "the private helpers of the round) is bound per item only monotonically: one constant, or a value accumulated from the variable "
     "itself - never a value computed from the item alone, which lets the last item of a round decide and so lets a piece that can "
-    "never be processed take the retry away from the pieces that wait for it; some per-item binding can move it away from what the "
-    "round resets it to; and the errors recorded together with a re-queue start empty in every round (every error left at the end has "
-    "its model and the model's dependants removed: an item that got through in a later round must not be among them)")
+    "never be processed take the retry away from the pieces that wait for it (they would be reported and removed with everything that "
+    "depends on them); and some per-item binding can move it away from what the round resets it to")
 
 
 def _fixpoint_not_decided_by_one_item(rep: Report, ctx: Any) -> None:
@@ -269,7 +287,8 @@ def _fixpoint_not_decided_by_one_item(rep: Report, ctx: Any) -> None:
 
     rule = getattr(c12, "_round_loops", None)
     rep.require(callable(rule), "the worklist-round rule of C12 (c12._round_loops), which R08.14 evaluates")
-    rule(_Under(rep, "R08.14"), ctx.py)
+    # (what that rule says about the errors recorded with a re-queue - round-structure, round-errors - stays C12's own statement)
+    rule(_UnderOnly(rep, "R08.14", lambda key: "::round-progress" in key), ctx.py)
 
 
 def check_no_alias(rep: Report, ctx: Any, rid: str) -> None:
